@@ -582,7 +582,7 @@ def run_trace(fs, trace, flog, preempt, collect_states=False):
                         memo_n[0] += 1
                         stats["extra"]["memo_hits"] += 1
                         fr_pref, fr_raised, fr_val, fr_rep = memo[key]
-                        if memo_n[0] % 8 == 0:
+                        if memo_n[0] % 4 == 1:
                             again = fresh_eval(si, seq, st, want)
                             stats["extra"]["memo_rechecks"] += 1
                             if json.dumps(again, sort_keys=True, default=repr) != json.dumps(memo[key], sort_keys=True, default=repr):
